@@ -245,7 +245,7 @@ func C08(tier string) int {
 			}
 		}
 	}
-	run.Rule = fmt.Sprintf("(a) corpus of %d conversations (DATA/BDAT transfers, AUTH, several transactions, errors; SMTP, LMTP, LMTP per-recipient) cut at EVERY byte offset x terminal answer {EOF, timeout, reset} x {one segment, one octet per segment}; (b) %d close-reason cases: connection states {fresh, greeted, authenticated, MAIL, RCPT, mid-BDAT, after a message} x server-initiated close {QUIT, 4th protocol error, over-long line, backend panic in Mail/Rcpt/Data/BDAT delivery/Reset} x every suffix and every single element of a pool of %d follow-up commands already buffered behind the closing command x {same segment, next segment, per octet}. All executions run in synctest bubbles: the bubble must drain (no goroutine of the connection left). Distinct by construction; non-trivial = a session exists at the cut / a suffix is buffered. (d) idle-timeout arming: ReadTimeout/WriteTimeout one minute on the virtual clock, a peer that pauses 40 s before every segment of 6 conversations x 3 modes - every wait must be under a freshly armed deadline, the last wait ends in 421; (c) STARTTLS conversations over a real TLS layer: {handshake completes, the client sends non-handshake octets, the client hangs up instead} x 5 plaintext prefixes (none ... mid-BDAT) x 7 continuations x 3 terminal answers, judged per session. Oracle on the backend trace: every session gets exactly one Logout, no callback begins after it, no session is created after the end, no recovered panic unless the backend panicked, output identical to the conversation without the buffered suffix.", len(corpus), len(closeCases), len(pool))
+	run.Rule = fmt.Sprintf("(a) corpus of %d conversations (DATA/BDAT transfers, AUTH, several transactions, errors; SMTP, LMTP, LMTP per-recipient) cut at EVERY byte offset x terminal answer {EOF, timeout, reset} x {one segment, one octet per segment}; (b) %d close-reason cases: connection states {fresh, greeted, authenticated, MAIL, RCPT, mid-BDAT, after a message} x server-initiated close {QUIT, 4th protocol error, over-long line, backend panic in Mail/Rcpt/Data/BDAT delivery/Reset} x every suffix and every single element of a pool of %d follow-up commands already buffered behind the closing command x {same segment, next segment, per octet}. All executions run in synctest bubbles: the bubble must drain (no goroutine of the connection left). Distinct by construction; non-trivial = a session exists at the cut / a suffix is buffered. (d) idle-timeout arming: ReadTimeout/WriteTimeout one minute on the virtual clock, a peer that pauses 40 s before every segment of 6 conversations x 3 modes - every wait must be under a freshly armed deadline, the last wait ends in 421; (e) a silence of five minutes (ReadTimeout one minute) at 7 points of a conversation (before/after the greeting, awaiting the answer to a 334, inside a transaction, a message, a chunk, between chunks) followed by more commands: nothing sent after the timeout is executed, the connection is closed; (c) STARTTLS conversations over a real TLS layer: {handshake completes, the client sends non-handshake octets, the client hangs up instead} x 5 plaintext prefixes (none ... mid-BDAT) x 7 continuations x 3 terminal answers, judged per session. Oracle on the backend trace: every session gets exactly one Logout, no callback begins after it, no session is created after the end, no recovered panic unless the backend panicked, output identical to the conversation without the buffered suffix.", len(corpus), len(closeCases), len(pool))
 	run.Assumptions = []string{"an unterminated fragment that the line reader hands out before it reports EOF counts as input received before the disconnect", "for STARTTLS conversations (two sessions per connection) the oracle is per session: exactly one Logout each, nothing on a session after its own Logout"}
 
 	type job struct{ ci, cut int }
@@ -310,6 +310,18 @@ func C08(tier string) int {
 		}
 	})
 	run.Sample("deadline-case", 1, dcases[0])
+	scases := c08SilenceCases()
+	h.ParallelFor(len(scases), func(i int) {
+		c := scases[i]
+		f := evalC08Silence(c)
+		run.Eval(true)
+		if f != nil {
+			run.Violate("c08-silence", c, f, func() *h.Finding { return evalC08Silence(c) })
+			run.Outcome("violation:" + f.Sig)
+		} else {
+			run.Outcome("silence-ok")
+		}
+	})
 	tcases := c08TLSCases()
 	h.ParallelFor(len(tcases), func(i int) {
 		c := tcases[i]
@@ -436,6 +448,67 @@ func c08TLSCases() []C08TLSCase {
 				}
 			}
 		}
+	}
+	return out
+}
+
+// ---- a silence longer than the read timeout ---------------------------------------------------------------------
+
+type C08SilenceCase struct {
+	Mode   string   `json:"mode"`
+	Where  string   `json:"where"`
+	Before []string `json:"before"` // segments sent before the silence
+}
+
+// evalC08Silence: ReadTimeout is one minute; the peer stays silent for five minutes at a given point and then sends
+// more commands. The idle timeout is one of the reasons for which the server gives up on a connection: whatever
+// arrives afterwards is not executed.
+func evalC08Silence(c C08SilenceCase) *h.Finding {
+	pc := ref.PConfig{LMTP: strings.HasPrefix(c.Mode, "lmtp"), LMTPBackend: c.Mode == "lmtp-rcpt", AllowInsecureAuth: true, AuthBackend: true}
+	cfg, be := serverFor(pc)
+	cfg.ReadTO, cfg.WriteTO = time.Minute, time.Minute
+	var segs [][]byte
+	for _, s := range c.Before {
+		segs = append(segs, []byte(s))
+	}
+	cfg.LongPauseBefore = len(segs) + 1
+	segs = append(segs, []byte("MAIL FROM:<okafter@a.example>\r\nRCPT TO:<okafter@b.example>\r\nNOOP\r\n"), []byte("NOOP\r\n"))
+	o := h.RunS(cfg, be, segs, h.TermEOF)
+	desc := fmt.Sprintf("mode=%s: five minutes of silence (ReadTimeout 1m) %s, then more commands", c.Mode, c.Where)
+	if f := o.Sanity("c08", desc); f != nil {
+		return f
+	}
+	if f := sessionOracle(o.Trace, false, o.Log); f != nil {
+		f.What = desc + ": " + f.What
+		return f
+	}
+	for _, e := range o.Trace {
+		if strings.Contains(e.Arg, "okafter@") {
+			return h.F("c08-executed-after-timeout", "%s: a command sent after the idle timeout was executed: %s(%s); replies %s", desc, e.Kind, e.Arg, o.Codes())
+		}
+	}
+	if !o.Closed {
+		return h.F("c08-not-closed-after-timeout", "%s: the server did not close the connection (replies %s)", desc, o.Codes())
+	}
+	return nil
+}
+
+func init() { h.RegisterReplayer("c08-silence", evalC08Silence) }
+
+func c08SilenceCases() []C08SilenceCase {
+	var out []C08SilenceCase
+	for _, mode := range corpusModes {
+		hl := hello(mode)
+		tx := "MAIL FROM:<ok@a.example>\r\nRCPT TO:<ok@b.example>\r\n"
+		out = append(out,
+			C08SilenceCase{Mode: mode, Where: "before the first command", Before: nil},
+			C08SilenceCase{Mode: mode, Where: "after the greeting exchange", Before: []string{hl}},
+			C08SilenceCase{Mode: mode, Where: "while the server waits for the answer to a 334 challenge", Before: []string{hl, "AUTH ONE\r\n"}},
+			C08SilenceCase{Mode: mode, Where: "inside a transaction", Before: []string{hl, tx}},
+			C08SilenceCase{Mode: mode, Where: "inside a message (after 354)", Before: []string{hl, tx, "DATA\r\n", "first line\r\n"}},
+			C08SilenceCase{Mode: mode, Where: "inside a chunk", Before: []string{hl, tx, "BDAT 20\r\n", "half of it"}},
+			C08SilenceCase{Mode: mode, Where: "between two chunks", Before: []string{hl, tx, "BDAT 4\r\nabc\n"}},
+		)
 	}
 	return out
 }
